@@ -14,7 +14,7 @@ RULE = ("G1 with-programs (generator / coroutine / async generator) observed at 
         "must obey the same over-approximation relation, without one (the interpreter absorbed the exception) it must be "
         "exact. Mode leg: generated sequences of set_trickery_enabled(True|False|None) and extractions issued from 1-3 "
         "threads; the mode in force (read off a reference frame: varname/start_line populated or not) must equal the last "
-        "value set, None meaning trickery on CPython. distinct = distinct IR.")
+        "value set, None meaning trickery on CPython; plus a forced interleaving in which one thread is paused inside the first-use self-test (auto-detect state) while another calls set_trickery_enabled(v): afterwards v must be in force. distinct = distinct IR.")
 ASSUMPTIONS = [
     "running frames are outside the fallback's documented reach on CPython and are not asserted",
     "managers' __exit__/__aexit__ are ordinary methods named __exit__/__aexit__ (the documented precondition of the fallback)",
@@ -56,6 +56,16 @@ def mode_shard(arg):
     from vlib.workers import ALL, WorkerDied, WorkerSet
     out = Outcome()
     with WorkerSet(ALL, hooks=False) as ws:
+        for val in arg.get("race_vals", []):
+            case = {"selftest_race": True, "val": val}
+            for interp in ALL:
+                for rep in range(2):
+                    res = ws[interp].request({"op": "modes.selftest_race", "val": val})
+                    out.per_interp[interp] += 1
+                    if res["obs"]:
+                        out.violation("%s on %s: %r" % (res["obs"][0]["kind"], interp, res["obs"][0]), case, interp)
+            out.note_case(case, True, classes=["selftest_race"], n_eval=2 * len(ALL))
+
         def chk(case):
             viols = []
             for interp in ALL:
@@ -84,11 +94,23 @@ def run(ctx):
     out = g1check.run(ctx, CFG, quick_n=640, thorough_n=60000, quick_table=300)
     n = ctx.pick(4, 16)
     out.merge(run_shards("checks.c20", "mode_shard", [{"seed": ctx.shard_seed("modes", i), "n": ctx.pick(160, 16000) // n,
-                                                       "shrink": not ctx.quick} for i in range(n)]))
+                                                       "shrink": not ctx.quick,
+                                                       "race_vals": [False, True, None] if i == 0 else []} for i in range(n)]))
     return out
 
 
 def replay(ctx, data):
+    if data["case"].get("selftest_race"):
+        from vlib.driver import Outcome
+        from vlib.workers import ALL, WorkerSet
+        out = Outcome()
+        with WorkerSet(ALL, hooks=False) as ws:
+            for interp in ALL:
+                res = ws[interp].request({"op": "modes.selftest_race", "val": data["case"]["val"]})
+                out.note_case(data["case"], True)
+                if res["obs"]:
+                    out.violation("%s on %s: %r" % (res["obs"][0]["kind"], interp, res["obs"][0]), data["case"], interp)
+        return out
     if "steps" in data["case"]:
         from vlib.driver import Outcome
         from vlib.workers import ALL, WorkerSet
